@@ -134,12 +134,18 @@ inductive Rendered where
   | ok (v : Option Str)
   | fail (e : Exc)
 
+/-- `'%.2f' % n` of a Python int converts it to a float first (`%d` and the sexagesimal formats render integers exactly) -/
+def preRound (fmt : Str) (isInt : Bool) (x : Rat) : Rat :=
+  match isInt, Num.parseFmt fmt with
+  | true, some (.f _ _ _) => Num.exactIEEE.fl x
+  | _, _ => x
+
 /-- `num_to_str(value, format)` as far as the message needs it -/
 def renderNum (fmt : Str) (v : Value) : Rendered :=
   match v with
   | .none => .ok none
-  | .num x _ =>
-    match Num.numToStr Num.exactIEEE fmt x with
+  | .num x isInt =>
+    match Num.numToStr Num.exactIEEE fmt (preRound fmt isInt x) with
     | .ok t => .ok (some t)
     | .assertionError => .fail .assertionError
     | .valueError => .fail .valueError
